@@ -39,4 +39,4 @@ def check(ctx):
 
 
 def replay(ctx, path):
-    return vlib.standard_replay(ctx, {"moment": "c19chrono", "period": "c19chrono", "stateline": "c19chrono", "dst": "c19chrono", "sweep": "c19chrono"}, path)
+    return vlib.standard_replay(ctx, {"moment": "c19chrono", "period": "c19chrono", "stateline": "c19chrono", "dst": "c19chrono", "dsttab": "c19chrono", "sweep": "c19chrono"}, path)
